@@ -1,15 +1,20 @@
 SPECIFICATION MCSpec
 CONSTANTS
   Cats = {"NP", "S/NP"}
-  Words = {"w"}
+  Words = {"vw"}
   MaxTrees = 1
   Depth = 2
   CatCut = 1
   WordCut = 1
+  AfixCut = 1
+  SpellOf <- MCSpellOf
 INVARIANT FilesAreTheCounts
 INVARIANT OneSamplePerKeptTree
 INVARIANT ReservedWordsAlwaysWritten
 INVARIANT SeenRulesOverTargetsOnly
+INVARIANT AfixReservedAlwaysWritten
+INVARIANT FourAffixesPerLeaf
+INVARIANT ShortWordsFeedTheMarkers
 INVARIANT BankIsTheTrees
 INVARIANT Emit
 PROPERTY CountsOnlyGrow
